@@ -4,6 +4,7 @@
 use vstd::prelude::*;
 use crate::verif_ext::*;
 use crate::value::IppValue;
+use crate::model::DelimiterTag;
 
 verus! {
 
@@ -240,8 +241,6 @@ pub open spec fn spec_add(gs: Seq<AGroup>, tag: crate::model::DelimiterTag, name
 
 // ------------------------------------------------------------------ request model (RFC 8011 §4.1.4, §4.1.5)
 
-use crate::model::DelimiterTag;
-
 pub open spec fn name_val(s: Seq<char>) -> AVal { AVal::Text { tag: T_NAME, s } }
 
 /// The operation group every request and response starts with: attributes-charset (charset) = utf-8,
@@ -327,9 +326,6 @@ pub open spec fn scan_rest(b: Seq<u8>) -> Option<Seq<u8>>
 }
 
 // ------------------------------------------------------------------ encoder (RFC 8010 §3.1, §3.9)
-
-/// What `IppAttributes::to_bytes` returns (pinned by that function's own contract).
-pub uninterp spec fn spec_attrs_bytes(a: &crate::attribute::IppAttributes) -> Seq<u8>;
 
 /// version-number (2 octets), operation-id / status-code (2), request-id (4), big-endian (§3.1.1)
 pub open spec fn spec_header_enc(h: crate::IppHeader) -> Seq<u8> {
@@ -421,6 +417,164 @@ pub open spec fn members_enc(members: Seq<(String, AVal)>, n: nat) -> Seq<u8>
 /// attribute-with-one-value (§3.1.4): value-tag, name-length, name, then the value (with its additional values)
 pub open spec fn spec_attr_enc(name: Seq<char>, a: AVal) -> Seq<u8> {
     s1(spec_tag(a)) + enc16(utf8(name).len() as u16) + utf8(name) + spec_val_enc(a)
+}
+
+// ------------------------------------------------------------------ attribute section (RFC 8010 §3.1.1, RFC 8011 §4.1.4-4.1.5)
+
+use crate::attribute::{IppAttribute, IppAttributeGroup};
+
+/// Position RFC 8011 requires for the leading operation attributes: attributes-charset first,
+/// attributes-natural-language second (§4.1.4), the operation target printer-uri or job-uri third and, for
+/// job operations addressed by printer-uri + job-id, job-id fourth (§4.1.5); anything else after them.
+pub open spec fn target_rank(n: Seq<char>) -> int {
+    if n == "attributes-charset"@ { 0 }
+    else if n == "attributes-natural-language"@ { 1 }
+    else if n == "printer-uri"@ || n == "job-uri"@ { 2 }
+    else if n == "job-id"@ { 3 }
+    else { 4 }
+}
+
+/// `ks` lists every key of `m` exactly once
+pub open spec fn key_perm<V>(ks: Seq<String>, m: Map<String, V>) -> bool {
+    ks.no_duplicates() && ks.to_set() =~= m.dom()
+}
+
+/// the attributes with keys `ks[0..n)`, each as attribute-with-one-value (+ additional values), in that order
+pub open spec fn keys_enc(m: Map<String, IppAttribute>, ks: Seq<String>, n: nat) -> Seq<u8>
+    decreases n
+{
+    if n == 0 || n > ks.len() {
+        Seq::<u8>::empty()
+    } else {
+        keys_enc(m, ks, (n - 1) as nat) + spec_attr_enc(m[ks[n - 1]].sname(), aval(m[ks[n - 1]].sval()))
+    }
+}
+
+/// the listed attributes come in RFC order, before all others
+pub open spec fn ranks_sorted(m: Map<String, IppAttribute>, ks: Seq<String>) -> bool {
+    forall|i: int, j: int| 0 <= i < j < ks.len() ==>
+        target_rank(m[#[trigger] ks[i]].sname()) <= target_rank(m[#[trigger] ks[j]].sname())
+}
+
+/// begin-attribute-group-tag then the group's attributes in key order `ks`
+pub open spec fn group_enc(g: IppAttributeGroup, ks: Seq<String>) -> Seq<u8> {
+    s1(g.stag() as u8) + keys_enc(g.sattrs(), ks, ks.len())
+}
+
+/// the first `n` emitted non-operation groups: (index into the message's groups, key order)
+pub open spec fn others_enc(gs: Seq<IppAttributeGroup>, others: Seq<(int, Seq<String>)>, n: nat) -> Seq<u8>
+    decreases n
+{
+    if n == 0 || n > others.len() {
+        Seq::<u8>::empty()
+    } else {
+        others_enc(gs, others, (n - 1) as nat) + group_enc(gs[others[n - 1].0], others[n - 1].1)
+    }
+}
+
+/// the groups of kind `tag`, in message order (what `IppAttributes::groups_of` yields)
+pub open spec fn groups_with(gs: Seq<IppAttributeGroup>, tag: DelimiterTag) -> Seq<IppAttributeGroup>
+    decreases gs.len()
+{
+    if gs.len() == 0 {
+        Seq::<IppAttributeGroup>::empty()
+    } else if gs[0].stag() == tag {
+        seq![gs[0]] + groups_with(gs.skip(1), tag)
+    } else {
+        groups_with(gs.skip(1), tag)
+    }
+}
+
+/// index of the first operation-attributes group, or `gs.len()`
+pub open spec fn first_op(gs: Seq<IppAttributeGroup>) -> int
+    decreases gs.len()
+{
+    if gs.len() == 0 {
+        0
+    } else if gs[0].stag() == DelimiterTag::OperationAttributes {
+        0
+    } else {
+        1 + first_op(gs.skip(1))
+    }
+}
+
+/// The encoder's list of leading attributes is usable for the RFC order: distinct names, nondecreasing RFC
+/// rank, and exactly the names the RFC ranks (so no ranked attribute is left to the unordered rest).
+pub open spec fn hdrs_ok(hs: Seq<&'static str>) -> bool {
+    &&& forall|a: int, b: int| 0 <= a < b < hs.len() ==> (#[trigger] hs[a])@ != (#[trigger] hs[b])@
+            && target_rank(hs[a]@) <= target_rank(hs[b]@)
+    &&& forall|a: int| 0 <= a < hs.len() ==> target_rank((#[trigger] hs[a])@) < 4
+    &&& forall|n: Seq<char>| target_rank(n) < 4 ==> exists|a: int| 0 <= a < hs.len() && (#[trigger] hs[a])@ == n
+}
+
+/// state of the first encoder loop after looking at the first `idx` listed names: `ops` are the keys emitted
+/// so far, `qs[j]` the position in the list of the name of `ops[j]`
+pub open spec fn loop1_inv(m: Map<String, IppAttribute>, hs: Seq<&'static str>, ops: Seq<String>, qs: Seq<int>, idx: int) -> bool {
+    &&& qs.len() == ops.len()
+    &&& forall|j: int| 0 <= j < ops.len() ==> 0 <= (#[trigger] qs[j]) < idx && qs[j] < hs.len()
+            && ops[j] == str_of(hs[qs[j]]@) && m.contains_key(ops[j])
+    &&& forall|j: int, k: int| 0 <= j < k < ops.len() ==> (#[trigger] qs[j]) < (#[trigger] qs[k])
+    &&& forall|q: int| 0 <= q < idx && q < hs.len() && m.contains_key(str_of((#[trigger] hs[q])@)) ==>
+            exists|j: int| 0 <= j < ops.len() && qs[j] == q
+}
+
+/// what vstd's `HashMap::iter` guarantees about the yielded (key, value) pairs
+pub open spec fn iter_facts(m: Map<String, IppAttribute>, r: Seq<(&String, &IppAttribute)>) -> bool {
+    &&& r.no_duplicates()
+    &&& forall|i: int| 0 <= i < r.len() ==> m.contains_key(*(#[trigger] r[i]).0) && m[*r[i].0] == *r[i].1
+    &&& forall|k: String| m.contains_key(k) ==> exists|i: int| 0 <= i < r.len() && *(#[trigger] r[i]).0 == k
+}
+
+/// the keys in iteration order
+pub open spec fn iter_keys(r: Seq<(&String, &IppAttribute)>) -> Seq<String> {
+    r.map_values(|p: (&String, &IppAttribute)| *p.0)
+}
+
+/// state of the second encoder loop after `idx` yielded values: `ops` = the listed keys `ops1` followed by the
+/// keys `vks[ps[..]]` of the unlisted (rank 4) attributes seen so far
+pub open spec fn loop2_inv(m: Map<String, IppAttribute>, ops1: Seq<String>, vks: Seq<String>, ops: Seq<String>, ps: Seq<int>, idx: int) -> bool {
+    &&& ops.len() == ops1.len() + ps.len()
+    &&& forall|j: int| 0 <= j < ops1.len() ==> (#[trigger] ops[j]) == ops1[j]
+    &&& forall|j: int| 0 <= j < ps.len() ==> 0 <= (#[trigger] ps[j]) < idx && ps[j] < vks.len()
+            && ops[ops1.len() + j] == vks[ps[j]] && target_rank(m[vks[ps[j]]].sname()) == 4
+    &&& forall|j: int, k: int| 0 <= j < k < ps.len() ==> (#[trigger] ps[j]) < (#[trigger] ps[k])
+    &&& forall|p: int| 0 <= p < idx && p < vks.len() && target_rank(m[#[trigger] vks[p]].sname()) == 4 ==>
+            exists|j: int| 0 <= j < ps.len() && ps[j] == p
+}
+
+/// `g` is one of the message's groups and not an operation group
+pub open spec fn from_groups(gs: Seq<IppAttributeGroup>, g: IppAttributeGroup) -> bool {
+    exists|j: int| 0 <= j < gs.len() && gs[j] == g && gs[j].stag() != DelimiterTag::OperationAttributes
+}
+
+/// every emitted non-operation group so far is a group of the message with all its attributes exactly once
+pub open spec fn others_ok(gs: Seq<IppAttributeGroup>, others: Seq<(int, Seq<String>)>) -> bool {
+    forall|k: int| 0 <= k < others.len() ==> 0 <= (#[trigger] others[k]).0 < gs.len()
+        && gs[others[k].0].stag() != DelimiterTag::OperationAttributes
+        && key_perm(others[k].1, gs[others[k].0].sattrs())
+}
+
+/// What the attribute-section encoder must produce for groups `gs`: the operation-attributes tag; the first
+/// operation group's attributes, each exactly once, the RFC-ordered ones first; then non-operation groups of
+/// the message, each introduced by its own tag with its attributes exactly once; then the end tag, once, last.
+/// `ops` / `others` are the iteration orders the hash maps happened to take (existentially quantified).
+pub open spec fn attrs_enc_ok(gs: Seq<IppAttributeGroup>, b: Seq<u8>, ops: Seq<String>, others: Seq<(int, Seq<String>)>) -> bool {
+    let i0 = first_op(gs);
+    &&& b == s1(0x01) + (if i0 < gs.len() { keys_enc(gs[i0].sattrs(), ops, ops.len()) } else { Seq::<u8>::empty() })
+            + others_enc(gs, others, others.len()) + s1(0x03)
+    &&& i0 < gs.len() ==> key_perm(ops, gs[i0].sattrs()) && ranks_sorted(gs[i0].sattrs(), ops)
+    &&& others_ok(gs, others)
+}
+
+/// preconditions of the attribute-section encoder: every value within the wire limits (the domain of C01/C03)
+/// and every attribute filed under its own name
+pub open spec fn attrs_wf(m: Map<String, IppAttribute>) -> bool {
+    forall|k: String| #[trigger] m.contains_key(k) ==> m[k].sname() == k@ && utf8(k@).len() <= 0xffff
+        && wf16(aval(m[k].sval())) && size_ok(aval(m[k].sval()))
+}
+
+pub open spec fn groups_wf(gs: Seq<IppAttributeGroup>) -> bool {
+    forall|i: int| 0 <= i < gs.len() ==> attrs_wf((#[trigger] gs[i]).sattrs())
 }
 
 /// every string and raw body fits its 16-bit length field (the domain of C01 / C03)
